@@ -216,6 +216,12 @@ def request : P String := do
       let V2 := if op == "tprod" then (if G2.nurbs then G2.nurbsAsVector else G2.bspAsVector) else G2
       let N1 := if anyN && !V1.nurbs then V1.bspAsNurbs else V1
       let N2 := if anyN && !V2.nurbs then V2.bspAsNurbs else V2
+      -- value shapes of rank ≥ 2 (B-spline operands only): general numpy broadcasting
+      if (!anyN) && op != "tprod" && (G1.vshape.length ≥ 2 || G2.vshape.length ≥ 2) then
+        match (if op == "osum" then bspOuterG (· + ·) G1 G2 else bspOuterG (· * ·) G1 G2) with
+        | .ok r => pure (showFunc r)
+        | .error e => pure e
+      else
       let r :=
         if op == "osum" then (if anyN then nurbsOuter (· + ·) N1 N2 else bspOuter (· + ·) N1 N2)
         else if op == "oprod" then (if anyN then nurbsOuter (· * ·) N1 N2 else bspOuter (· * ·) N1 N2)
